@@ -20,7 +20,7 @@ ASSUMPTIONS = [
 ]
 MANIFEST = {
     "text": "Lean 4 theorems over a definition language mirroring codec.py, for EVERY well-formed definition at any nesting depth and any number of sequence items: dec_enc (decode(encode v) = v, encoding has the declared length), enc_dec (whatever decodes re-encodes to canonical octets of the consumed length that decode to the same value), length_exact and trailing_rejected, errors_own (only DecodeError/EncodeError; no ProtocolError, no hang), bitfield_trunc, termination of the sequence loop; WF and InRange are decidable predicates with non-vacuity examples. The model is compared with the real codec objects built from the same random definitions; an independent oracle checks the property itself (round trip, canonical re-encode, exact consumption, error classes, documented bit-field layout) on the real code.",
-    "note": "trusted: Lean kernel (+propext, Classical.choice, Quot.sound), the differential harness (harness/py/codec_harness.py, lib/codecdef.py builders), the generators (lib/codecgen.py); modelled not verified: CPython int/bytes/dict primitives as written in Model/Codec.lean; callbacks outside the first-order family are not covered; enc_dec speaks about canonical octets (spare bits/fillers are normalised), byte-exact equality for spare-free definitions is checked by the oracle only",
+    "note": "trusted: Lean kernel (+propext, Classical.choice, Quot.sound), the differential harness (harness/py/codec_harness.py, lib/codecdef.py builders), the generators (lib/codecgen.py); modelled not verified: CPython int/bytes/dict primitives as written in Model/Codec.lean; callbacks outside the first-order family are not covered; enc_dec speaks about canonical octets (spare bits/fillers are normalised), byte-exact equality of the re-encoding for spare-free definitions is checked by the oracle on the real code, not proved",
     "technique": "Lean 4 proof by induction over a nested inductive definition language (well-founded recursion on sizeOf for the nesting, list induction for envelopes and sequences) + differential correspondence on generated definitions",
     "design_ref": "DESIGN.md section 5 C16",
 }
@@ -245,6 +245,10 @@ def oracle(run, corr, ncases, tag="oracle"):
                         "spec": "a decoded message re-encodes"})
             continue
         cb = cd.unhx(a.split()[1])
+        if len(cb) == n and no_spare(c.clean['fs']) and cb != b[:n]:
+            wit.append({"kind": "canonical-octets", "def": c.line, "input": cd.hx(b), "decoded": vline, "consumed": n, "impl": a,
+                        "spec": "a definition without spare parts re-encodes the consumed octets exactly: ok %s" % cd.hx(b[:n])})
+            continue
         if len(cb) != n:
             wit.append({"kind": "canonical-length", "def": c.line, "input": cd.hx(b), "decoded": vline, "consumed": n, "impl": a,
                         "spec": "re-encoding has the consumed length %d" % n})
@@ -300,6 +304,19 @@ def oracle(run, corr, ncases, tag="oracle"):
     corr.distribution["%s: definitions" % tag] = len(cases)
     corr.distribution["%s: max nesting depth" % tag] = max([depth(c.clean['fs']) for c in cases] + [0])
     return wit
+
+
+def no_spare(fs):
+    """every octet/bit of the encoding carries a decoded value (no Spare fields, no spare or padding bits)"""
+    for f in fs:
+        if f['k'] == 'spare':
+            return False
+        if f['k'] == 'bits':
+            if any(b[0] == 's' for b in f['fs']) or sum(b[2] for b in f['fs']) != 8 * cg.bits_len(f):
+                return False
+        if f['k'] in ('env', 'seq') and not no_spare(f['fs']):
+            return False
+    return True
 
 
 def static_field(f):
